@@ -170,6 +170,9 @@ class BaseBatch(abc.ABC):
             if response_map and self._client.strict:
                 raise exceptions.IdentityError(f"unexpected response found: {response_map.keys()}")
 
+            # the server may return the responses in any order, rearrange them according to the requests order
+            batch_response.reorder([request.id for request in batch_request if request.id is not None])
+
 
 class Batch(BaseBatch):
     """
